@@ -80,23 +80,23 @@ def fault(k: int, kind: int, drop: bool) -> None:
 
 @harness(
     "C05", "cancel",
-    quick=_shards(("async",)),
-    thorough=_shards(("async",)),
+    quick=[dict(sh, _pre=f"c <= {300 if sh['ct'] in ('h2', 'h2prior') else 70}") for sh in _shards(("async",))],
+    thorough=[dict(sh, _pre=f"c <= {320 if sh['ct'] in ('h2', 'h2prior') else 90}") for sh in _shards(("async",))],
     example=dict(c=3, one_shot=False, drop=False),
     require=("cancel-delivered", "response-returned"),
     timeout={"quick": 240, "thorough": 900},
     symbolic="c: global scheduler step at which the caller is cancelled; one_shot: asyncio-style single delivery vs trio/anyio scope-style; drop",
-    bounds="one request per run, every suspension point of the run (c <= 60 covers all), 8 connection types, async classes over the model runtime, max_connections=2",
+    bounds="one request per run, every suspension point of the run (scheduler steps 0..70, 0..300 for HTTP/2 whose connection set-up alone takes ~200 steps; a larger c means not cancelled), 8 connection types, async classes over the model runtime, max_connections=2",
     outside="cancellation delivered inside shielded sections; more than one cancelled task",
     stubs=STUBS,
     also=("C06",),
 )
 def cancel(c: int, one_shot: bool, drop: bool) -> None:
     """
-    pre: 0 <= c <= 60
+    pre: 0 <= c <= 320
     post: _
     """
-    c, one_shot, drop = ladder(c, 0, 60), bool(one_shot), bool(drop)
+    c, one_shot, drop = ladder(c, 0, 320), bool(one_shot), bool(drop)
     with concrete(c, one_shot, drop):
         _cancel(c, one_shot, drop)
 
